@@ -315,15 +315,17 @@ def main(argv):
     violations, errors = [], []
 
     # 1. committed regression replays (seconds-long saved-input tier); they must pass on the repaired tree.
+    only = os.environ.get("VERIF_ONLY")
     regress = sorted(glob.glob(os.path.join("replays", prop, "regress-*.json")))
-    by_name = {sc.name: sc for sc in subchecks}
+    by_name = {sc.name: sc for sc in module.SUBCHECKS if not only or sc.name == only}
     regress_run = 0
     for path in regress:
         with open(path) as handle:
             data = json.load(handle)
         sc = by_name.get(data["subcheck"])
         if sc is None:
-            errors.append("regression replay %s names unknown sub-check %s" % (path, data["subcheck"]))
+            if not only:
+                errors.append("regression replay %s names unknown sub-check %s" % (path, data["subcheck"]))
             continue
         try:
             out = evaluate_guarded(sc, data["case"])
